@@ -299,7 +299,7 @@ impl<'a> Runner<'a> {
 
     pub fn do_sync(&mut self, prop: &str) -> Result<(), Viol> {
         self.stats.syncs += 1;
-        self.st.sync().map_err(|e| self.v(prop, "sync_failed", format!("flush+ack+idle failed without injected fault: {}", e)))
+        self.st.sync().map_err(|e| if e.starts_with("TIMEOUT") { self.v("HARNESS", "wait_ran_out_of_time", e) } else { self.v(prop, "sync_failed", format!("flush+ack+idle failed without injected fault: {}", e)) })
     }
 
     pub fn step(&mut self, i: usize) -> Result<(), Viol> {
